@@ -25,6 +25,15 @@
 // *Session object one request gives back to the pool is the one the next request draws
 // (counted: av_session_object_of_other_client_drawn).
 //
+// Dedicated small families (audit round 5, AUDIT.md): requests that give their session its own idle
+// timeout (Session.SetIdleTimeout; a field of the pooled object), an administrator operating on a
+// user's session obtained by store.GetByID (Destroy / Regenerate / Reset / Delete+Save on a session
+// without request context), and - as one more call of the store-API compound requests - a second
+// store.Get in the same request (`reget`). Ids have the default generator's UUID shape with the
+// built-in storage and the short counter form with the injected one. The quick tier enumerates the
+// exhaustive families on the configuration diagonal {fresh ctx + AbsoluteTimeout, shared ctx without}
+// (see ctxDiagonal in ops.go for why); the de-duplicating search and the thorough tier keep all 24.
+//
 //	part 1 (both tiers)  exhaustive: every history over a family's alphabet up to its depth
 //	part 2               breadth-first search with state de-duplication over the full alphabet
 package main
@@ -35,6 +44,7 @@ import (
 	"os"
 	"runtime"
 	"runtime/debug"
+	"runtime/pprof"
 	"sort"
 	"strings"
 
@@ -51,14 +61,40 @@ var (
 
 const nWorkers = 16
 
+// only: development knob C15_ONLY=<family>,...,bfs,cc runs only the named parts (evidence is then not meaningful).
+func only(part string) bool {
+	o := os.Getenv("C15_ONLY")
+	if o == "" {
+		return true
+	}
+	for _, x := range strings.Split(o, ",") {
+		if x == part {
+			return true
+		}
+	}
+	return false
+}
+
 func families(quick bool) []Family {
+	var out []Family
+	for _, f := range allFamilies(quick) {
+		if only(f.Name) {
+			out = append(out, f)
+		}
+	}
+	return out
+}
+
+func allFamilies(quick bool) []Family {
 	if quick {
 		return []Family{
-			{Name: "full-d3", Ops: fullAlphabet(), Depth: 3, Symmetric: true},
-			{Name: "core-d4", Ops: coreOps(), Depth: 4, Ctx: ctxSharedAbsOff},
-			{Name: "timing-d5", Ops: timingOps(), Depth: 5, AbsOnly: true, Ctx: ctxFresh},
-			{Name: "compound2-d3", Ops: contextOps(), Compound: compoundOps(2), Depth: 3, Ctx: ctxSharedAbsOff},
+			{Name: "full-d3", Ops: fullAlphabet(), Depth: 3, Symmetric: true, Ctx: ctxDiagonal},
+			{Name: "core-d4", Ops: coreOps(), Depth: 4, Ctx: ctxSharedNoAbs},
+			{Name: "timing-d5", Ops: timingOps(), Depth: 5, AbsOnly: true, Ctx: ctxFresh, Sources: []string{"cookie", "header"}},
+			{Name: "compound2-d3", Ops: contextOps(), Compound: compoundOps(2), Depth: 3, Ctx: ctxDiagonal},
 			{Name: "rotation-timing-d5", Ops: rotationOps(false), Depth: 5, Ctx: ctxFresh, Sources: []string{"cookie", "header"}, NoLeadingTick: true},
+			{Name: "idle-override-d4", Ops: idleOps(), Depth: 4, Ctx: ctxFresh, Sources: []string{"cookie", "header"}, NoLeadingTick: true},
+			{Name: "byid-ops-d4", Ops: byIDOps(), Depth: 4, Ctx: ctxDiagonal, NoLeadingTick: true},
 		}
 	}
 	return []Family{
@@ -69,6 +105,8 @@ func families(quick bool) []Family {
 		{Name: "compound2-d3", Ops: contextOps(), Compound: compoundOps(2), Depth: 3},
 		{Name: "compound3-d3", Ops: contextOps(), Compound: compoundOps(3), Depth: 3, Ctx: ctxSharedAbsOff},
 		{Name: "rotation-timing-d5", Ops: rotationOps(true), Depth: 5, Ctx: ctxFresh, NoLeadingTick: true},
+		{Name: "idle-override-d5", Ops: idleOps(), Depth: 5, Ctx: ctxFresh, NoLeadingTick: true},
+		{Name: "byid-ops-d4", Ops: byIDOps(), Depth: 4, NoLeadingTick: true},
 	}
 }
 
@@ -153,6 +191,21 @@ func count(l *core.Local, op Op, o *obsT, info stepInfo) {
 		if o.drewPrev {
 			l.Add("av_session_object_of_previous_request_drawn", 1)
 		}
+		if o.drewOwnIdle {
+			l.Add("av_session_object_with_own_idle_timeout_drawn_by_other_client", 1)
+		}
+	}
+	if op.Act == "idle" {
+		l.Add("av_own_idle_timeout_requests", 1)
+	}
+	if op.Kind == kAdmin && strings.HasPrefix(op.Act, "getbyid") && op.Act != "getbyid" && strings.HasPrefix(info.Outcome, "getbyid live->session") {
+		l.Add("av_byid_"+strings.TrimPrefix(op.Act, "getbyid")+"_on_live_session", 1)
+	}
+	if strings.Contains(info.Outcome, " second-get") {
+		l.Add("av_second_store_get_in_one_request", 1)
+		if strings.HasPrefix(info.Outcome, "live->resumed") {
+			l.Add("av_second_store_get_by_resumed_session", 1)
+		}
 	}
 	// an id that went through Regenerate presented after the session's ORIGINAL absolute deadline
 	if strings.Contains(info.Outcome, "absolute-timeout(") && strings.Contains(info.Outcome, "+regenerate)") {
@@ -184,7 +237,8 @@ func count(l *core.Local, op Op, o *obsT, info stepInfo) {
 	}
 }
 
-func record(l *core.Local, cfg Cfg, hist []int, res result) {
+func record(l *core.Local, part string, cfg Cfg, hist []int, res result) {
+	l.Add("violating_histories_"+part, 1)
 	v := res.Viol
 	sig, onFresh := v.Sig, ""
 	if cfg.Ctx == "shared" {
@@ -210,7 +264,7 @@ func record(l *core.Local, cfg Cfg, hist []int, res result) {
 			}
 			withoutCompound = "passes"
 			cl := seqClass(op.Seq)
-			if !strings.HasPrefix(cl, "write-after-") {
+			if !strings.HasPrefix(cl, "write-after-") && cl != "second-get" {
 				cl = "multi-call"
 			}
 			sig += " after-compound=" + op.API + ":" + cl
@@ -229,7 +283,8 @@ func record(l *core.Local, cfg Cfg, hist []int, res result) {
 		"trace":                              res.Trace,
 		"same_history_on_fresh_request_ctxs": onFresh,
 		"same_history_without_the_compound_request": withoutCompound,
-		"replay":                             fmt.Sprintf("C15_DEBUG='%s;%s' ./check C15 quick", cfgSpec(cfg), strings.Join(opNames(hist[:res.At+1]), ",")),
+		"found_by": part,
+		"replay":   fmt.Sprintf("C15_DEBUG='%s;%s' ./check C15 quick", cfgSpec(cfg), strings.Join(opNames(hist[:res.At+1]), ",")),
 	}
 	l.Violate(sig, v.What, cs, v.Observed, v.Expected)
 }
@@ -317,7 +372,7 @@ func dfs(r *core.Run, f Family, cfg Cfg, hist []int, seenUser bool, l *core.Loca
 			return
 		}
 		if res.Viol != nil {
-			record(l, cfg, hist, res)
+			record(l, f.Name, cfg, hist, res)
 			return
 		}
 		if len(hist) == f.Depth {
@@ -357,7 +412,7 @@ func dfsCompound(f Family, cfg Cfg, hist []int, l *core.Local) {
 			return
 		}
 		if res.Viol != nil {
-			record(l, cfg, hist, res)
+			record(l, f.Name, cfg, hist, res)
 			return
 		}
 		if len(hist) == f.Depth {
@@ -417,6 +472,12 @@ func main() {
 	}
 	if r.IsWorker() {
 		workerSetup()
+		if pf := os.Getenv("C15_PROFILE"); pf != "" && r.Worker == 0 { // development: CPU profile of worker 0
+			if f, err := os.Create(pf); err == nil {
+				_ = pprof.StartCPUProfile(f)
+				defer pprof.StopCPUProfile()
+			}
+		}
 		switch *flagMode {
 		case "dfs":
 			runDFS(r)
@@ -425,23 +486,30 @@ func main() {
 		default:
 			core.Fatal("worker without mode")
 		}
+		pprof.StopCPUProfile()
 		r.FinishWorker()
 	}
 	env := []string{"GOMAXPROCS=1"}
 	crashed := r.SpawnWorkers(nWorkers, env, "-mode", "dfs")
-	bfs := runBFS(r, bfsDepth(r.Quick()), env, &crashed)
+	var bfs bfsReport
+	if only("bfs") {
+		bfs = runBFS(r, bfsDepth(r.Quick()), env, &crashed)
+	}
 	for _, c := range crashed {
 		r.Violate("worker-crashed", "a worker process died (fatal runtime error or kill)", c, nil, nil)
 	}
-	if r.Replay == "" {
+	if r.Replay == "" && only("cc") {
 		runConcurrentSessions(r) // two requests of different clients in flight (small; runs in this process)
 	}
 	c := r.P.Counters
 	for _, k := range []string{"av_live_session_resumed", "av_resumed_with_data", "av_forged_id_presented", "av_idle_expired_id_presented", "av_abs_expired_id_presented", "av_ended_id_presented", "av_request_on_reused_ctx", "av_reused_ctx_other_id_same_length",
 		"av_compound_requests", "av_compound_mw_write-after-destroy", "av_compound_st_write-after-destroy", "av_compound_mw_write-after-reset", "av_compound_mw_write-after-regenerate",
 		"av_regenerated_id_past_abs_deadline_presented_mw", "av_regenerated_id_past_abs_deadline_presented_st", "av_regenerated_id_past_abs_deadline_getbyid",
-		"av_session_object_of_previous_request_drawn", "av_session_object_of_other_client_drawn", "av_session_object_of_other_client_drawn_by_resumed_session_with_data"} {
-		if c[k] == 0 && len(r.P.Violations) == 0 {
+		"av_session_object_of_previous_request_drawn", "av_session_object_of_other_client_drawn", "av_session_object_of_other_client_drawn_by_resumed_session_with_data",
+		"av_own_idle_timeout_requests", "av_session_object_with_own_idle_timeout_drawn_by_other_client",
+		"av_byid_destroy_on_live_session", "av_byid_regen_on_live_session", "av_byid_reset_on_live_session", "av_byid_del_on_live_session",
+		"av_second_store_get_in_one_request", "av_second_store_get_by_resumed_session"} {
+		if c[k] == 0 && len(r.P.Violations) == 0 && os.Getenv("C15_ONLY") == "" {
 			core.Fatal("vacuous: counter %s is zero", k)
 		}
 	}
@@ -464,8 +532,8 @@ func main() {
 		d := map[string]any{"name": f.Name, "depth": f.Depth, "alphabet_size": len(f.Ops), "alphabet": opNames(f.Ops), "configurations": cf, "user_symmetry_reduction": f.Symmetric}
 		if f.Compound != nil {
 			d["compound_requests"] = len(f.Compound)
-			d["compound_request_calls"] = len(alphabet[f.Compound[0]].Seq)
-			d["compound_request_letters"] = seqName(seqLetters)
+			d["compound_request_calls"] = alphabet[f.Compound[0]].Group
+			d["compound_request_letters"] = seqName(seqLetters) + "; store API also " + regetLetter.Name + " (Release, then store.Get again in the same request)"
 			d["shape"] = "exactly one compound request per history (any position), the other requests from `alphabet`"
 		}
 		famDesc = append(famDesc, d)
@@ -483,12 +551,15 @@ func main() {
 		"dedup_search": bfs,
 		"bounds": map[string]any{
 			"configurations":     "source {cookie, header, query} x storage {built-in memory, injected map-based TTL storage on the harness clock that keeps the key strings it is given} x AbsoluteTimeout {off, 12 s} x RequestCtx {fresh per request, one shared by all requests of the history and reset between them as the fasthttp server does on keep-alive connections / through its ctx pool}; IdleTimeout 10 s",
-			"clients":            "A, B: replay the id the server last sent (cookie jar honouring Max-Age/Expires/deletion; response header for header source); M: presents `evil`, `s0` (server's format and length, never issued), the id most recently ended by Destroy/Regenerate/Reset/store.Delete, the last id A or B ever received; the id is always the first query argument / header / cookie of its request",
+			"clients":            "A, B: replay the id the server last sent (cookie jar honouring Max-Age/Expires/deletion; response header for header source); M: presents `evil`, id number 0 of the KeyGenerator's format (server's format and length, never issued), the id most recently ended by Destroy/Regenerate/Reset/store.Delete, the last id A or B ever received; the id is always the first query argument / header / cookie of its request",
 			"clock_steps_s":      []int{tShort, tIdle, tAbs, tHalf},
 			"exhaustive_depths":  famDesc,
 			"dedup_search_depth": bfs.MaxDepth,
-			"key_generator":      "counter s1, s2, ...",
-			"compound_requests":  "user A, middleware API and store API: every ordered pair (thorough: and triple) of {" + seqName(seqLetters) + "} performed by ONE request's handler, ID/Fresh/Keys/Get read back after each call; store-API sequences persist only where they say save; histories of <= 3 requests with exactly one compound request",
+			"key_generator":      "counter; injected storage: s1, s2, ...; built-in storage: the default generator's UUIDv4 shape 00000000-0000-4000-8000-<12-digit counter>; M's never-issued id is number 0 of the same format",
+			"compound_requests":  "user A, middleware API and store API: every ordered pair (thorough: and triple) of {" + seqName(seqLetters) + "} performed by ONE request's handler, ID/Fresh/Keys/Get read back after each call; store-API sequences persist only where they say save and have one more letter, reget = Release + store.Get(c) again in the same request (also appended to every store-API pair); histories of <= 3 requests with exactly one compound request",
+			"own_idle_timeout":   "requests calling Session.SetIdleTimeout(5 s | 15 s) before their save (both APIs), family idle-override: every other session keeps IdleTimeout 10 s; the session itself: that save exactly, later saves either value",
+			"getbyid_operations": "administrator requests: store.GetByID(A's id) followed by nothing / Set+Save / Delete(key)+Save / Destroy / Regenerate+Save / Reset+Save, store.Delete, store.Reset; their responses must not carry a session cookie / header",
+			"middleware_next":    "injected-storage configurations: the session middleware is also installed on the store-API route with Config.Next skipping it; built-in storage: no middleware on that route",
 			"session_pool":       "single-threaded worker, pools emptied before each history: the *Session a request releases is the one the next request draws; counters av_session_object_* measure how often a request was handed an object another client used before",
 		},
 		"rule": "states = history-tree nodes replayed in the exhaustive part + distinct canonical states of the de-duplicating search; a transition = one executed and judged request; every history is a complete real execution on a fresh app compared step by step with the reference model",
@@ -527,7 +598,7 @@ func debugHistory(spec string) {
 	parts := strings.SplitN(spec, ";", 2)
 	f := strings.Split(parts[0], ",")
 	if len(parts) != 2 || (len(f) != 3 && len(f) != 4) {
-		core.Fatal("C15_DEBUG=source,storage,on|off[,fresh|shared];op,op,...  ops: %s\ncompound (user A): A.mw.seq.<call>+<call>[+<call>] / A.st.seq.... with calls %s", strings.Join(opNames(fullAlphabet()), " "), strings.ReplaceAll(seqName(seqLetters), "+", " "))
+		core.Fatal("C15_DEBUG=source,storage,on|off[,fresh|shared];op,op,...  ops: %s\ncompound (user A): A.mw.seq.<call>+<call>[+<call>] / A.st.seq.... with calls %s", strings.Join(opNames(fullAlphabet()), " "), strings.ReplaceAll(seqName(seqLettersFor("st")), "+", " "))
 	}
 	cfg := Cfg{f[0], f[1], f[2] == "on", "fresh"}
 	if len(f) == 4 {
